@@ -3,6 +3,7 @@ package mon
 import (
 	ipfslog "berty.tech/go-ipfs-log"
 	"berty.tech/go-ipfs-log/entry"
+	idp "berty.tech/go-ipfs-log/identityprovider"
 	"bytes"
 	"fmt"
 	"github.com/ipfs/go-cid"
@@ -148,6 +149,72 @@ func CheckC04(run *evid.Run) {
 				}
 				run.NonTrivial(fmt.Sprintf("h%d/n%d/pc%d/f%v/%s/r%d", hb, bucket(len(before.Set)), s.PC, foreign, sp, len(e.Refs)))
 				run.Count("nontrivial_appends", 1)
+			}
+		}
+		// two more situations an append can find itself in, with the clauses that do not need a gap-free log
+		checkLate := func(l *ipfslog.IPFSLog, writer *idp.Identity, sp, where string) {
+			wit := func() map[string]any { m := histSample(h); m["at"] = where; return m }
+			before := hx.Observe(l)
+			ae, err := l.Append(x.W.Ctx, []byte(fmt.Sprintf("%d.%d/late-%s", h.Seed, h.Idx, sp)), nil)
+			run.Count("appends", 1)
+			run.Count("appends_after_"+sp, 1)
+			d := det("pc", 1, "after", sp, "shape", h.Shape, "codec", h.Codec)
+			if err != nil {
+				run.Violate("C04/append-error", d, wit(), "append failed: %v (%s)", err, where)
+				return
+			}
+			e := hx.ToModel(ae)
+			after := hx.Observe(l)
+			if !model.EqualAsSets(e.Next, before.Heads) {
+				run.Violate("C04/next", d, wit(), "appended entry names %v as predecessors, heads were %v (%s)", hx.SortedShorts(e.Next), hx.SortedShorts(before.Heads), where)
+			}
+			if !bytes.Equal(e.ClockID, writer.PublicKey) || !bytes.Equal(ae.GetKey(), writer.PublicKey) {
+				run.Violate("C04/clock-id", d, wit(), "clock id (or key) is not the writer's public key (%s)", where)
+			}
+			for _, o := range before.Set {
+				if e.Time <= o.Time {
+					run.Violate("C04/clock-time", d, wit(), "clock time %d not greater than the time %d of an entry in the log (%s)", e.Time, o.Time, where)
+					break
+				}
+			}
+			if len(after.Heads) != 1 || after.Heads[0] != e.Hash {
+				run.Violate("C04/single-head", d, wit(), "after append heads=%v, want only %s (%s)", hx.Shorts(after.Heads), hx.Short(e.Hash), where)
+			}
+			run.NonTrivial(fmt.Sprintf("late/%s/h%d/n%d", sp, len(before.Heads), bucket(len(before.Set))))
+		}
+		if i%4 == 3 {
+			// the writer changes to the SAME user on another device: same identity id, another public key
+			for r, l := range x.Logs {
+				if l.Len() == 0 {
+					continue
+				}
+				name := fmt.Sprintf("user%c", 'A'+x.Writer[r])
+				other := x.W.OtherDeviceIdentity(name)
+				if other.ID != x.W.Idents[x.Writer[r]].ID || bytes.Equal(other.PublicKey, x.W.Idents[x.Writer[r]].PublicKey) {
+					panic("harness: the other-device identity must have the same id and another public key")
+				}
+				l.SetIdentity(other)
+				checkLate(l, other, "setident-same-id-other-key", fmt.Sprintf("after the history: r%d's writer %s changes to the same user on another device", r, name))
+				break
+			}
+		}
+		if i%4 == 1 && len(x.Logs) >= 2 {
+			// merges WITH A SIZE BOUND precede the append: a fresh log takes one replica whole, then another one under a
+			// bound that cuts into what it holds
+			a, b := x.Logs[0], x.Logs[1%len(x.Logs)]
+			for _, l := range x.Logs {
+				if l.Len() > a.Len() {
+					b, a = a, l
+				}
+			}
+			if a != b && a.Len() >= 2 && b.Len() >= 1 {
+				fresh := x.W.NewLog(0)
+				if _, err := fresh.Join(a, -1); err == nil {
+					size := 1 + (i/4)%(a.Len()+1)
+					if _, err := fresh.Join(b, size); err == nil {
+						checkLate(fresh, x.W.Idents[0], "size-bounded-merge", fmt.Sprintf("after the history: a fresh log merged one replica (%d entries) whole and another (%d entries) with bound %d", a.Len(), b.Len(), size))
+					}
+				}
 			}
 		}
 		run.Eval(1)
